@@ -42,6 +42,29 @@ def screen(m, meta):
             problems.append("the image that disappeared was not deleted")
         if scr._ti_image_cviews:
             problems.append("stale image views kept")
+    # the same with kitty support FORCED on a terminal that reports none (images are drawn, so they have to be tracked and deleted)
+    from term_image.image import ITerm2Image
+    saved_sup = (KittyImage._supported, ITerm2Image._supported)
+    try:
+        KittyImage._supported, ITerm2Image._supported = False, False
+        KittyImage.forced_support = True
+        tests.set_terminal_name_version("wezterm", "2023")
+        scr2 = UrwidImageScreen.__new__(UrwidImageScreen)
+        scr2._ti_image_cviews = frozenset()
+        out2 = []
+        scr2.write = lambda data: out2.append(data)
+        scr2.flush = lambda: None
+        scr2._ti_screen_canv = urwid.Pile([("pack", urwid.Text("header")), urwid.Filler(UrwidImage(KittyImage(Image.new("RGB", (20, 20)))))]).render((30, 12))
+        scr2._ti_clear_images()
+        scr2._ti_screen_canv = urwid.SolidFill("x").render((30, 12))
+        n1 = len(out2)
+        scr2._ti_clear_images()
+        if "a=d" not in "".join(out2[n1:]):
+            problems.append("forced kitty support on a terminal that reports none: the image that disappeared was not deleted")
+    finally:
+        KittyImage.forced_support = False
+        KittyImage._supported, ITerm2Image._supported = saved_sup
+        tests.set_terminal_name_version("kitty", "0.30.0")
     # clear_images(): whatever the arguments, every image it deletes from the terminal is forced to be drawn again (the trailing
     # "disguise" of its canvas lines changes, so urwid's line cache cannot skip them)
     from term_image.widget import UrwidImageCanvas
